@@ -363,12 +363,50 @@ theorem reset_restores (s : Stack) (ops : List Op) :
     resetFixed s.frames.length s.values (s.run ops) = s :=
   resetFixed_after_run s ops
 
-/-- **Main theorem.** Any interleaving of succeeding evaluations, failing top-level evaluations (`run_expr`,
-    IO actions) and failing host calls of Gluon functions (`Function::call`) leaves the thread exactly as a
-    fresh one: every step kind of the model is clean (error paths: thread.rs:1137-1151, :1167-1179,
-    api/function.rs:460-476). -/
-theorem history_clean (steps : List Step) (s : Stack) : runHistory resetFixed steps s = s :=
+/-- **Main theorem.** After ANY interleaving of succeeding evaluations, failing top-level evaluations (`run_expr`,
+    IO actions, failures inside async primitives) and failing host calls of Gluon functions the thread has exactly
+    its old frames, and its old values plus ONE `Int 0` per *successful* IO action (the dummy slot of `execute_io`,
+    thread.rs:1265 — a success-path leftover, reported to the lead, outside the property's "failed run" clause):
+    nothing of any failed run remains (error paths: thread.rs:1137-1151, :1167-1179, api/function.rs:460-476). -/
+theorem history_restores (steps : List Step) (s : Stack) :
+    runHistory resetFixed steps s = ⟨s.frames, s.values + ioSlots steps⟩ :=
   history_fixed steps s
+
+/-- In particular a history without successful IO actions leaves the thread exactly as a fresh one. -/
+theorem history_clean (steps : List Step) (s : Stack) (h : ioSlots steps = 0) :
+    runHistory resetFixed steps s = s := by
+  rw [history_restores, h]; cases s; rfl
+
+/-! ### failures inside future-returning primitives: the extern-frame lock -/
+
+/-- The error path restores the thread after ANY failed run as long as no frame of the run is still locked when the
+    error is propagated (`exit_scope` refuses locked extern frames, stack.rs:875-879). -/
+theorem reset_restores_unlocked (base : List LFrame) (vlen p : Nat) (fs : List LFrame)
+    (hu : ∀ f ∈ fs, f.locked = false) :
+    resetTopL base.length vlen ⟨fs ++ base, vlen + p⟩ = (⟨base, vlen⟩, true) :=
+  resetTopL_unlocked base vlen p fs hu
+
+/-- `reset_restores` for failures that surface through an async primitive (`lazy.force`, `io.catch`, `io.run_expr`,
+    `io.load_script`, `thread.resume`, …): `return_future`'s poll function releases the extern frame's lock BEFORE it
+    propagates the error of the pushed result (thread.rs:1666-1673), so the error path unwinds everything and the
+    host receives the script's own error. -/
+theorem reset_restores_async (s : Stack) (d v : Nat) : asyncFailStep true s d v = (s, true) :=
+  asyncFail_restores s d v
+
+/-- The other order — push the result with `?` first, release the lock afterwards — is NOT equivalent: on an error the
+    frame stays locked, `reset_stack` stops at once (the host gets `Attempted to exit scope above current`), and all
+    `d + 1` frames and `v` values of the failed run stay on the thread. -/
+theorem reset_restores_async_lock_order_fails (s : Stack) (d v : Nat) :
+    (asyncFailStep false s d v).2 = false ∧
+    (asyncFailStep false s d v).1.frames.length = s.frames.length + d + 1 ∧
+    (asyncFailStep false s d v).1.values = s.values + v :=
+  asyncFail_lock_order_stuck s d v
+
+/-- For a *successful* completion the two orders agree (which is why the swap looks harmless). -/
+theorem lock_order_irrelevant_on_success (s : LStack) :
+    completeAsync true false s = completeAsync false false s := by
+  cases s with
+  | mk fs v => cases fs <;> simp [completeAsync, unlockTop]
 
 /-! Old rule (before /repo dd1aca2: `call_first` propagated the error with `?`, no `reset_stack`) — regression. -/
 
@@ -426,5 +464,8 @@ example : isCharBoundary [97, 98, 99] 2 = true ∧ isCharBoundary [97, 98, 99] 1
 example : runHistory resetStack [.fail 3 10, .ok 2 5, .fail 1 4] Stack.base = ⟨[0], 14⟩ := by decide
 example : runHistory resetFixed [.fail 3 10, .ok 2 5, .fail 1 4] Stack.base = Stack.base := by decide
 example : pushed [.push 3, .enter 1] = 3 := rfl
+example : asyncFailStep false Stack.base 1 5 = (⟨[5, 5, 0], 5⟩, false) := by decide
+example : runHistory resetFixed [.asyncFail 1 5, .ok 1 0, .hostFail 2 3] Stack.base = Stack.base := by decide
+example : runHistory resetFixed [.okIO, .asyncFail 1 5, .okIO] Stack.base = ⟨[0], 2⟩ := by decide
 
 end GluonModel.Props.C06
